@@ -50,7 +50,7 @@ func init() {
 		},
 		Rule: "each case = one real chain of 6 blocks produced by a goloop node (0-50 test transactions per block with payloads across RLP length boundaries, commit votes, half of the chains with an open BTP network so that blocks carry a BTP digest and NS filter) " +
 			"decoded by a second node through BlockManager.NewBlockDataFromReader and BlockDataFactory.NewBlockDataFromReader (seekable and plain readers). " +
-			"(1) round trip of every block: id, every header field, transaction bytes/ids in order, votes, digest, re-marshalled bytes, reload from the producer's DB. " +
+			"(1) round trip of every block: id, every header field, transaction bytes/ids in order, votes, digest, re-marshalled bytes; store round trip: every block re-materialized from the producer's database by a restarted node (GetBlock by id, GetBlockByHeight) and by the bare block handler (stored-header decoder) must have the id, fields and marshalled bytes recorded at finalization, and those bytes must decode again. " +
 			"(2) mutants of the valid encodings: bit flips (all header bits, a sample of the rest in the quick tier, every bit of blocks up to 1.5 kB in the thorough tier), byte sets, truncations, inserted/deleted bytes, every RLP length field inflated/deflated (also inside the nested encodings of votes, digest and result), body parts of another block under this header (whole body, transactions, votes, digest), transactions swapped/dropped/duplicated/moved between patch and normal list. " +
 			"(3) hostile inputs: structured blocks with self-consistent hashes and hostile parts (BTP digests with boundary network ids, crafted vote lists, foreign/garbled transactions, proposer/bloom/result/filter of odd shapes, wrong item counts, non-canonical integers), RLP-shaped random trees and random bytes. " +
 			"Oracle: no panic in decoding or in using the decoded block (ID, Marshal, accessors); an accepted input's decoded transactions/votes/digest hash (recomputed here: sha3, a fresh transaction list on a fresh DB, own RLP splitter) to the fields of the input's header and its filter matches the digest; " +
@@ -67,6 +67,7 @@ func init() {
 			"hostile_structured", "hostile_random", "hostile_rlp_tree",
 			"accepted_checked", "rejected", "bodyswap_rejected", "accepted_header_mutation",
 			"via_manager", "via_factory_plain_reader",
+			"store_reload_checked", "store_reload_with_ns_filter", "store_reload_with_txs",
 		},
 		Assumptions: []string{
 			"golang.org/x/crypto/sha3 and goloop's transaction-list merkle hash (on a fresh DB) as the reference for the committed hashes",
@@ -109,6 +110,9 @@ type env struct {
 	vbs      []*vblock
 	n        int
 	curDesc  string
+	txn      int
+	gs       string
+	w        module.Wallet
 	decodeNS int64
 }
 
@@ -612,7 +616,11 @@ func (e *env) randomTx() *test.Transaction {
 	for i := range b {
 		b[i] = "abcdefghijklmnopqrstuvwxyz0123456789 _-"[r.Intn(39)]
 	}
-	s := string(b)
+	// unique per chain: a transaction id committed twice makes goloop's txlocator
+	// manager race with its own flush goroutine (commitTracker clears loc.id while
+	// flushList reads it) - a C11 matter, kept out of this check
+	e.txn++
+	s := fmt.Sprintf("%d:", e.txn) + string(b)
 	return test.NewTx().SetTimestamp(r.Int63n(1000000)).SetVarTest(&s)
 }
 
@@ -621,6 +629,7 @@ func (e *env) produce() bool {
 	const dsa = "ecdsa/secp256k1"
 	w := wallet.New()
 	gs := genesisFor(w)
+	e.gs, e.w = gs, w
 	e.A = bfix.NewNode(e.t, test.UseGenesis(gs), test.UseWallet(w))
 	e.D = bfix.NewNode(e.t, test.UseGenesis(gs))
 	var err error
@@ -816,6 +825,135 @@ func (e *env) roundTrip(vb *vblock) {
 	}
 }
 
+// storeRoundTrip: the node also serializes every finalized block into its
+// store (header under the block id, votes/transactions/digest by hash) and
+// re-materializes it through the stored-header decoder
+// (blockV2Handler.NewBlockFromHeaderReader) after a restart or once the block
+// has left the manager's cache. A restarted node over the producer's database
+// and the bare handler are asked for every block by id and by height: id, all
+// fields and the marshalled bytes must be those recorded at finalization, and
+// the re-marshalled bytes must decode again on the other node.
+func (e *env) storeRoundTrip(gs string, w module.Wallet) {
+	c := e.c
+	R := bfix.NewNode(e.t, test.UseGenesis(gs), test.UseWallet(w), test.UseDB(e.A.Chain.Database()))
+	defer R.Close()
+	curMu.Lock()
+	cleanup = append(cleanup, R.Base)
+	curMu.Unlock()
+	if errs := e.t.Errors(); len(errs) > 0 {
+		c.Violation("roundtrip.store.restart-failed", map[string]interface{}{"errors": errs, "case": e.ci})
+		return
+	}
+	handler := gblock.NewBlockV2Handler(R.Chain)
+	for _, vb := range e.vbs {
+		blk := vb.blk
+		c.Note("store-roundtrip height=%d id=%x", blk.Height(), blk.ID())
+		type src struct {
+			via string
+			get func() (module.Block, error)
+		}
+		for _, sc := range []src{
+			{"restarted-manager.GetBlock", func() (module.Block, error) { return R.BM.GetBlock(blk.ID()) }},
+			{"restarted-manager.GetBlockByHeight", func() (module.Block, error) { return R.BM.GetBlockByHeight(blk.Height()) }},
+			{"handler.GetBlock", func() (module.Block, error) { return handler.GetBlock(blk.ID()) }},
+		} {
+			c.Eval(1)
+			var re module.Block
+			var err error
+			var enc []byte
+			var dgBytes, dgRef []byte
+			var ids, pids [][]byte
+			pan, where := guard(func() {
+				re, err = sc.get()
+				if err != nil || re == nil {
+					return
+				}
+				var buf bytes.Buffer
+				if merr := re.Marshal(&buf); merr == nil {
+					enc = buf.Bytes()
+				}
+				if dg, derr := re.BTPDigest(); derr == nil && dg != nil {
+					dgBytes = dg.Bytes()
+				}
+				ids, _, _, _ = txIDsOf(re.NormalTransactions())
+				pids, _, _, _ = txIDsOf(re.PatchTransactions())
+			})
+			wit := func(extra map[string]interface{}) map[string]interface{} {
+				m := map[string]interface{}{"case": e.ci, "height": blk.Height(), "via": sc.via,
+					"finalized_id": hexs(blk.ID()), "finalized_block": hexs(vb.enc)}
+				for k, v := range extra {
+					m[k] = v
+				}
+				return m
+			}
+			if pan != "" {
+				c.Violation("roundtrip.store.panic@"+where, wit(map[string]interface{}{"panic": pan}))
+				continue
+			}
+			if err != nil || re == nil {
+				c.Violation("roundtrip.store.load-failed", wit(map[string]interface{}{"err": fmt.Sprint(err)}))
+				continue
+			}
+			bad := func(f string, a, b interface{}) {
+				c.Violation("roundtrip.store.field."+f, wit(map[string]interface{}{"finalized": fmt.Sprint(a), "reloaded": fmt.Sprint(b)}))
+			}
+			if !bytes.Equal(re.ID(), blk.ID()) {
+				bad("id", hexs(blk.ID()), hexs(re.ID()))
+			}
+			if re.Version() != blk.Version() || re.Height() != blk.Height() || re.Timestamp() != blk.Timestamp() {
+				bad("version-height-timestamp", fmt.Sprint(blk.Version(), blk.Height(), blk.Timestamp()), fmt.Sprint(re.Version(), re.Height(), re.Timestamp()))
+			}
+			if !bytes.Equal(re.PrevID(), blk.PrevID()) {
+				bad("prev-id", hexs(blk.PrevID()), hexs(re.PrevID()))
+			}
+			if (re.Proposer() == nil) != (blk.Proposer() == nil) || (re.Proposer() != nil && !bytes.Equal(re.Proposer().Bytes(), blk.Proposer().Bytes())) {
+				bad("proposer", blk.Proposer(), re.Proposer())
+			}
+			if !bytes.Equal(re.NextValidatorsHash(), blk.NextValidatorsHash()) {
+				bad("next-validators-hash", hexs(blk.NextValidatorsHash()), hexs(re.NextValidatorsHash()))
+			}
+			if !bytes.Equal(re.Result(), blk.Result()) {
+				bad("result", hexs(blk.Result()), hexs(re.Result()))
+			}
+			if !bytes.Equal(re.LogsBloom().Bytes(), blk.LogsBloom().Bytes()) {
+				bad("logs-bloom", hexs(blk.LogsBloom().Bytes()), hexs(re.LogsBloom().Bytes()))
+			}
+			if !bytes.Equal(re.Votes().Bytes(), blk.Votes().Bytes()) {
+				bad("votes", hexs(blk.Votes().Bytes()), hexs(re.Votes().Bytes()))
+			}
+			f1, f2 := re.NetworkSectionFilter(), blk.NetworkSectionFilter()
+			if !bytes.Equal(f1.Bytes(), f2.Bytes()) {
+				bad("ns-filter", hexs(f2.Bytes()), hexs(f1.Bytes()))
+			}
+			if dg, derr := blk.BTPDigest(); derr == nil && dg != nil {
+				dgRef = dg.Bytes()
+			}
+			if !bytes.Equal(dgBytes, dgRef) {
+				bad("btp-digest", hexs(dgRef), hexs(dgBytes))
+			}
+			if !eqIDs(ids, vb.txIDs) || !eqIDs(pids, vb.ptxIDs) {
+				bad("transactions", len(vb.txIDs), len(ids))
+			}
+			if !bytes.Equal(enc, vb.enc) {
+				c.Violation("roundtrip.store.marshal-differs", wit(map[string]interface{}{"reloaded_marshal": hexs(enc)}))
+				// what a syncing peer would do with it
+				if d := e.decode(enc); d.err != nil || d.panic != "" {
+					c.Violation("roundtrip.store.remarshal-rejected", wit(map[string]interface{}{"reloaded_marshal": hexs(enc), "err": fmt.Sprint(d.err, d.panic)}))
+				}
+			} else if d := e.decode(enc); d.err != nil || d.panic != "" || d.bd == nil || !bytes.Equal(d.bd.ID(), blk.ID()) {
+				c.Violation("roundtrip.store.remarshal-rejected", wit(map[string]interface{}{"err": fmt.Sprint(d.err, d.panic)}))
+			}
+			c.Count("store_reload_checked", 1)
+			if len(f2.Bytes()) > 0 {
+				c.Count("store_reload_with_ns_filter", 1)
+			}
+			if len(vb.txIDs) > 0 {
+				c.Count("store_reload_with_txs", 1)
+			}
+		}
+	}
+}
+
 func run(c *ev.Ctx) {
 	bfix.Silence()
 	startMonitor(c)
@@ -849,6 +987,7 @@ func run(c *ev.Ctx) {
 		for _, vb := range e.vbs {
 			e.roundTrip(vb)
 		}
+		e.storeRoundTrip(e.gs, e.w)
 		for bi, vb := range e.vbs {
 			if e.dead() {
 				return
